@@ -242,6 +242,35 @@ fn poly_oracle(c: &PolyCase) -> Verdict {
         let mut moi = polys.clone(); pm::negacyclic_multiply_mononomial_inplace_ps(&mut moi, mono, shift, pc, n, &moduli);
         let mut back2 = fwd.clone(); pm::intt_ps(&mut back2, pc, n, &ts);
         check!(back2 == polys, "intt_ps(ntt_ps(a)) != a for {pc} polynomials over {k} moduli");
+        // lazy multi-polynomial transforms, per-modulus monomial coefficients, and the single-polynomial (_p) wrappers on polynomial 0
+        let mut lz = polys.clone(); pm::ntt_lazy_ps(&mut lz, pc, n, &ts);
+        let mut ilz = fwd.clone(); pm::intt_lazy_ps(&mut ilz, pc, n, &ts);
+        let monos: Vec<u64> = (0..k).map(|j| 1 + (mono + 3 * j as u64) % (c.primes[j] - 1)).collect();
+        let mut ms = junk(pc * d); pm::negacyclic_multiply_mononomials_ps(&polys, &monos, shift, pc, n, &moduli, &mut ms);
+        let mut msi = polys.clone(); pm::negacyclic_multiply_mononomials_inplace_ps(&mut msi, &monos, shift, pc, n, &moduli);
+        let p0 = polys[..d].to_vec(); let f0 = fwd[..d].to_vec();
+        let mut lz_p = p0.clone(); pm::ntt_lazy_p(&mut lz_p, n, &ts);
+        let mut ilz_p = f0.clone(); pm::intt_lazy_p(&mut ilz_p, n, &ts);
+        let mut dyi_p = f0.clone(); pm::dyadic_product_inplace_p(&mut dyi_p, &f0, n, &moduli);
+        let mut sh_p = junk(d); pm::negacyclic_shift_p(&p0, shift, n, &moduli, &mut sh_p);
+        let mut mo_p = junk(d); pm::negacyclic_multiply_mononomial_p(&p0, mono, shift, n, &moduli, &mut mo_p);
+        let mut moi_p = p0.clone(); pm::negacyclic_multiply_mononomial_inplace_p(&mut moi_p, mono, shift, n, &moduli);
+        let mut ms_p = junk(d); pm::negacyclic_multiply_mononomials_p(&p0, &monos, shift, n, &moduli, &mut ms_p);
+        let mut msi_p = p0.clone(); pm::negacyclic_multiply_mononomials_inplace_p(&mut msi_p, &monos, shift, n, &moduli);
+        for j in 0..k {
+            let a = p0[j * n..(j + 1) * n].to_vec(); let p = c.primes[j];
+            let mut fa = a.clone(); ts[j].ntt_negacyclic_harvey(&mut fa);
+            let cj = |v: &[u64]| v[j * n..(j + 1) * n].to_vec();
+            check!(cj(&lz_p).iter().zip(fa.iter()).all(|(x, w)| *x < 4 * p && x % p == *w), "ntt_lazy_p: component {j} of {k} not in [0,4q) or not congruent to the transform");
+            check!(cj(&ilz_p).iter().zip(a.iter()).all(|(x, w)| *x < 2 * p && x % p == *w), "intt_lazy_p: component {j} of {k} not in [0,2q) or not congruent to the inverse transform");
+            check!(cj(&dyi_p) == fa.iter().map(|x| rm::mulmod(*x, *x, p)).collect::<Vec<_>>(), "dyadic_product_inplace_p: component {j} of {k}");
+            let ws = rm::negacyclic_shift(&a, shift, p);
+            check!(cj(&sh_p) == ws, "negacyclic_shift_p by {shift}: component {j} of {k}");
+            let wm: Vec<u64> = ws.iter().map(|x| rm::mulmod(*x, mono % p, p)).collect();
+            check!(cj(&mo_p) == wm && cj(&moi_p) == wm, "negacyclic_multiply_mononomial(_inplace)_p ({mono} X^{shift}): component {j} of {k}");
+            let wms: Vec<u64> = ws.iter().map(|x| rm::mulmod(*x, monos[j], p)).collect();
+            check!(cj(&ms_p) == wms && cj(&msi_p) == wms, "negacyclic_multiply_mononomials(_inplace)_p (coefficient {} X^{shift}): component {j} of {k}", monos[j]);
+        }
         for i in 0..pc { for j in 0..k {
             let a = comp(&polys, i, j); let p = c.primes[j];
             let mut fa = a.clone(); ts[j].ntt_negacyclic_harvey(&mut fa);
@@ -254,6 +283,10 @@ fn poly_oracle(c: &PolyCase) -> Verdict {
             let wm: Vec<u64> = ws.iter().map(|x| rm::mulmod(*x, mono % p, p)).collect();
             check!(comp(&mo, i, j) == wm, "negacyclic_multiply_mononomial_ps ({mono} X^{shift}): polynomial {i} component {j} of {pc}x{k}");
             check!(comp(&moi, i, j) == wm, "negacyclic_multiply_mononomial_inplace_ps ({mono} X^{shift}): polynomial {i} component {j} of {pc}x{k}");
+            check!(comp(&lz, i, j).iter().zip(fa.iter()).all(|(x, w)| *x < 4 * p && x % p == *w), "ntt_lazy_ps: polynomial {i} component {j} of {pc}x{k} not in [0,4q) or not congruent to the transform");
+            check!(comp(&ilz, i, j).iter().zip(a.iter()).all(|(x, w)| *x < 2 * p && x % p == *w), "intt_lazy_ps: polynomial {i} component {j} of {pc}x{k} not in [0,2q) or not congruent to the inverse transform");
+            let wms: Vec<u64> = ws.iter().map(|x| rm::mulmod(*x, monos[j], p)).collect();
+            check!(comp(&ms, i, j) == wms && comp(&msi, i, j) == wms, "negacyclic_multiply_mononomials(_inplace)_ps (coefficient {} X^{shift}): polynomial {i} component {j} of {pc}x{k}", monos[j]);
         } }
     }
     // a modulus for which no primitive 2N-th root exists must be rejected, not panic
